@@ -139,6 +139,54 @@ func (c *Ctl) parkedNames() []string {
 	return names
 }
 
+// Release lets the named worker go if it is parked (recorded in Trace); false if it is not parked.
+func (c *Ctl) Release(name string) bool {
+	c.mu.Lock()
+	p, ok := c.parked[name]
+	if ok {
+		delete(c.parked, name)
+		c.Trace = append(c.Trace, name+"@"+p.point)
+	}
+	c.mu.Unlock()
+	if ok {
+		close(p.ch)
+	}
+	return ok
+}
+
+// ParkedAt returns the point the named worker is parked at ("" if it is not parked).
+func (c *Ctl) ParkedAt(name string) string {
+	c.mu.Lock()
+	defer c.mu.Unlock()
+	if p, ok := c.parked[name]; ok {
+		return p.point
+	}
+	return ""
+}
+
+// Running reports whether the named worker was started and has not finished.
+func (c *Ctl) Running(name string) bool {
+	c.mu.Lock()
+	defer c.mu.Unlock()
+	return c.running[name]
+}
+
+// AwaitParkedOrDone waits (no verdict attached: a generous cap makes the case inconclusive) until
+// the named worker is parked at a point or has finished.
+func (c *Ctl) AwaitParkedOrDone(name string) {
+	start := time.Now()
+	for c.ParkedAt(name) == "" && c.Running(name) {
+		// drain arrival/completion events so the channel never fills up
+		select {
+		case <-c.events:
+		case <-time.After(50 * time.Microsecond):
+		}
+		if time.Since(start) > 3*time.Minute {
+			common.Inconclusive("worker %s neither parked nor finished after %v", name, time.Since(start))
+		}
+	}
+}
+
 // settle waits until no further events arrive for one BlockWait (every
 // running goroutine is parked, finished or blocked).
 func (c *Ctl) settle() {
